@@ -133,33 +133,92 @@ structure Eff (s s' : State) (t : Tid) (c : Cid) : Prop where
   tlen : s'.threads.length = s.threads.length
   olen : s'.owner.length = s.owner.length
   owns : ∀ c', c' ≠ c → s'.own c' = s.own c'
+  /-- other threads are never put to sleep by somebody else's step -/
+  wts : ∀ t', t' ≠ t → (s'.thread t').waiting = true → (s.thread t').waiting = true
 
-theorem Eff.refl (s : State) (t : Tid) (c : Cid) : Eff s s t c := ⟨fun _ _ => rfl, rfl, rfl, fun _ _ => rfl⟩
+theorem Eff.refl (s : State) (t : Tid) (c : Cid) : Eff s s t c :=
+  ⟨fun _ _ => rfl, rfl, rfl, fun _ _ => rfl, fun _ _ h => h⟩
 
 theorem Eff.trans {s1 s2 s3 : State} {t : Tid} {c : Cid} (a : Eff s1 s2 t c) (b : Eff s2 s3 t c) : Eff s1 s3 t c :=
   ⟨fun t' h => (b.pcs t' h).trans (a.pcs t' h), b.tlen.trans a.tlen, b.olen.trans a.olen,
-   fun c' h => (b.owns c' h).trans (a.owns c' h)⟩
+   fun c' h => (b.owns c' h).trans (a.owns c' h), fun t' h w => a.wts t' h (b.wts t' h w)⟩
 
 theorem eff_setThread (s : State) (t : Tid) (c : Cid) (th : Thread) : Eff s (s.setThread t th) t c :=
-  ⟨fun t' h => by rw [thread_setThread_ne _ _ _ _ (Ne.symm h)], by simp [State.setThread], rfl, fun _ _ => rfl⟩
+  ⟨fun t' h => by rw [thread_setThread_ne _ _ _ _ (Ne.symm h)], by simp [State.setThread], rfl, fun _ _ => rfl,
+   fun t' h w => by rwa [thread_setThread_ne _ _ _ _ (Ne.symm h)] at w⟩
 
-theorem eff_setThread_same (s : State) (x t : Tid) (c : Cid) (th : Thread) (h : th.pc = (s.thread x).pc) :
+/-- reading thread `t'` after `setThread x th`: either it is `th`, or nothing changed for `t'` -/
+theorem thread_setThread_cases (s : State) (x t' : Tid) (th : Thread) :
+    (s.setThread x th).thread t' = th ∨ (s.setThread x th).thread t' = s.thread t' := by
+  by_cases hx : x = t'
+  · subst hx
+    by_cases hl : x < s.threads.length
+    · left; exact thread_setThread_self _ _ _ hl
+    · right
+      have hle : s.threads.length ≤ x := Nat.le_of_not_lt hl
+      have : s.setThread x th = s := by
+        simp only [State.setThread]
+        rw [List.set_eq_of_length_le hle]
+      rw [this]
+  · right; exact thread_setThread_ne _ _ _ _ hx
+
+theorem eff_setThread_same (s : State) (x t : Tid) (c : Cid) (th : Thread) (h : th.pc = (s.thread x).pc)
+    (hw : th.waiting = true → (s.thread x).waiting = true) :
     Eff s (s.setThread x th) t c :=
-  ⟨fun t' _ => pc_setThread_same s x t' th h, by simp [State.setThread], rfl, fun _ _ => rfl⟩
+  ⟨fun t' _ => pc_setThread_same s x t' th h, by simp [State.setThread], rfl, fun _ _ => rfl,
+   fun t' _ w => by
+    by_cases hx : x = t'
+    · subst hx
+      rcases thread_setThread_cases s x x th with e | e
+      · rw [e] at w; exact hw w
+      · rwa [e] at w
+    · rwa [thread_setThread_ne _ _ _ _ hx] at w⟩
 
 theorem eff_setOwner (s : State) (t : Tid) (c : Cid) (o : Option Tid) : Eff s (s.setOwner c o) t c :=
-  ⟨fun _ _ => rfl, rfl, by simp [State.setOwner], fun c' h => own_setOwner_ne _ _ _ _ (Ne.symm h)⟩
+  ⟨fun _ _ => rfl, rfl, by simp [State.setOwner], fun c' h => own_setOwner_ne _ _ _ _ (Ne.symm h), fun _ _ h => h⟩
 
 theorem eff_setChan (s : State) (t : Tid) (c c' : Cid) (ch : Chan) : Eff s (s.setChan c' ch) t c :=
-  ⟨fun _ _ => rfl, rfl, rfl, fun _ _ => rfl⟩
+  ⟨fun _ _ => rfl, rfl, rfl, fun _ _ => rfl, fun _ _ h => h⟩
+
+theorem broadcast_waiting (c : Cid) (ths : List Thread) (t : Tid)
+    (h : ((broadcast c ths).getD t dfltThread).waiting = true) : (ths.getD t dfltThread).waiting = true := by
+  simp only [broadcast, List.getD, List.getElem?_map] at h ⊢
+  cases hth : ths[t]? with
+  | none => rw [hth] at h; exact h
+  | some th =>
+    rw [hth] at h
+    simp only [Option.map_some, Option.getD_some] at h ⊢
+    split at h
+    · split at h
+      · cases h
+      · exact h
+    · exact h
+
+/-- `Broadcast` on channel `c` leaves no thread asleep at a wait point of `c` -/
+theorem broadcast_wakes (c : Cid) (ths : List Thread) (t : Tid) (p : Point)
+    (hpc : (ths.getD t dfltThread).pc = .at p) (hw : p.isWait = true) (hc : p.chan = c) :
+    ((broadcast c ths).getD t dfltThread).waiting = false := by
+  simp only [broadcast, List.getD, List.getElem?_map] at hpc ⊢
+  cases hth : ths[t]? with
+  | none => rfl
+  | some th =>
+    rw [hth] at hpc
+    simp only [Option.getD_some] at hpc
+    simp only [Option.map_some, Option.getD_some, hpc]
+    split
+    · rfl
+    · rename_i hn
+      simp only [hw, hc, and_true, Bool.not_eq_true] at hn
+      simpa using hn
 
 theorem eff_broadcast (s : State) (t : Tid) (c : Cid) : Eff s { s with threads := broadcast c s.threads } t c :=
-  ⟨fun t' _ => broadcast_pc c s.threads t', broadcast_length _ _, rfl, fun _ _ => rfl⟩
+  ⟨fun t' _ => broadcast_pc c s.threads t', broadcast_length _ _, rfl, fun _ _ => rfl,
+   fun t' _ w => broadcast_waiting c s.threads t' w⟩
 
 theorem eff_applyDeliver (s : State) (t : Tid) (c : Cid) (d : Option (Target × Val)) : Eff s (applyDeliver s d) t c := by
   cases d with
   | none => exact Eff.refl ..
-  | some x => exact eff_setThread_same s x.1.tid t c _ rfl
+  | some x => exact eff_setThread_same s x.1.tid t c _ rfl (fun h => h)
 
 theorem doAfter_eff (s : State) (t : Tid) (c : Cid) (k : After) (ht : t < s.threads.length) :
     Eff s (doAfter s t c k) t c ∧ ∀ c', ((doAfter s t c k).thread t).pc.inCS c' = false := by
@@ -259,7 +318,12 @@ theorem exec_notify (s : State) (t : Tid) (c : Cid) (rest : List Tid) (k : After
     obtain ⟨e, h⟩ := doAfter_eff s t c k ht
     exact ⟨e, fun c' hc => by rw [h c'] at hc; cases hc⟩
   | cons x xs =>
-    have e1 : Eff s (s.setThread x (notifyThread (s.thread x))) t c := eff_setThread_same s x t c _ rfl
+    have e1 : Eff s (s.setThread x (notifyThread (s.thread x))) t c :=
+      eff_setThread_same s x t c _ rfl (fun h => by
+        simp only [notifyThread] at h
+        split at h
+        · cases h
+        · exact h)
     have hl1 : t < (s.setThread x (notifyThread (s.thread x))).threads.length := by rw [e1.tlen]; exact ht
     cases xs with
     | nil =>
